@@ -243,6 +243,7 @@ class SymSet:
                                 patterns=[idx(t)]), tag="set-iteration-order")
             s = SymSeq(n, lambda i: TRef(f(i)), distinct=True, origin=self)
             s.index_of = lambda tt: idx(tt)
+            s.at_key = lambda tt: TRef(tt)
             self._seq = s
             self.card = n
         return self._seq
@@ -252,10 +253,11 @@ class SymMap:
     """Mapping keyed by tensor identities: `keys` is a SymSeq (insertion order, duplicate-free) or None with
     `dom` a membership predicate; `get(t)` meta-level closure from a Ten term to a value."""
 
-    def __init__(self, keys: SymSeq, get, dom=None):
+    def __init__(self, keys: SymSeq, get, dom=None, by_index=None):
         self.keys = keys
         self.get = get
         self.dom = dom  # callable(Ten term) -> BoolRef ; derived from keys when None
+        self.by_index = by_index  # positional access i -> value of the i-th key (avoids the idx(key_i) round trip)
 
     def sym_setitem(self, interp, key, v):
         """d[key] = v for a key NOT yet present (insertion at the end); overwriting keeps the position."""
@@ -272,6 +274,7 @@ class SymMap:
             self.keys = SymSeq(z3.simplify(n + 1), lambda i: ite_val(lift(i) == n, key, old_keys.get(i)), distinct=True)
             self.dom = lambda t: z3.Or(t == k, dom(t))
             self._keyset = None
+        self.by_index = None
 
 
 # ----------------------------------------------------------------------------- tensors
